@@ -239,15 +239,21 @@ func parseQuery(p []byte) (id []byte, q []byte, ok bool) {
 	return p[4:36], q, ok
 }
 
-// the harness's query body: "c12q" | call number (uint32 LE) | salt (uint32 LE)
-func makeQ(call int, salt uint32) []byte {
+// the harness's query body: "c12q" | call number (uint32 LE) | salt (uint32 LE) | padding (pseudo-random, any length)
+func makeQ(call int, salt uint32, pad int) []byte {
 	q := []byte("c12q")
 	q = binary.LittleEndian.AppendUint32(q, uint32(call))
-	return binary.LittleEndian.AppendUint32(q, salt)
+	q = binary.LittleEndian.AppendUint32(q, salt)
+	x := uint64(salt)<<32 | uint64(call)
+	for len(q) < 12+pad {
+		x = splitmix(x)
+		q = binary.LittleEndian.AppendUint64(q, x)
+	}
+	return q[:12+pad]
 }
 
 func callOfQ(q []byte) int {
-	if len(q) != 12 || string(q[:4]) != "c12q" {
+	if len(q) < 12 || string(q[:4]) != "c12q" {
 		return 0
 	}
 	return int(binary.LittleEndian.Uint32(q[4:]))
